@@ -28,14 +28,22 @@ META = dict(
          '(thorough) over the 12-symbol alphabet of the property, plus random grammar-derived expressions (<= 12 components, '
          'whitespace), single-character and structural mutations of them and random token sequences, with both the model and pybufrkit.dataquery.NodePathParser and '
          'compares outcome family, subset slice, component triples and the printout (NodePath.__str__ vs print) exactly; the oracle compares the implementation with the '
-         'executable grammar and checks the print/parse law on the implementation alone.',
+         'executable grammar and checks the print/parse law on the implementation alone. Source tie: the whole NodePathParser (all nine '
+         'methods, NodePath, PathComponent) is re-translated from the repository into Lean on every check (harness/py2lean.py, '
+         'Gen/PyDataquery.lean) and C15_src_parse_eq proves, for every object state, both values of bare_id_matches_all and every '
+         'input of SrcDomain (no "+", "_", non-ASCII digit, blank outside string.whitespace; at most 4300 digits), that the '
+         'translated parse returns exactly what the model parse returns (no IndexError / TypeError / ValueError, loop terminates); '
+         'outside SrcDomain code and model differ and the differences are stated (A[+1], A[1_0], non-ASCII digits and blanks, the '
+         '4300-digit limit of int()).',
     technique='Lean 4 theorems (state-machine invariants by induction on the input: whitespace erasure, token runs, slice bodies vs '
               'splitting on colons, component induction on fuel; decimal printing/parsing round trip) + exhaustive and random '
               'checked model/implementation correspondence + implementation-vs-grammar oracle',
     note="Python's int() is modelled as '-'? digit+ and whitespace as the six ASCII blanks of string.whitespace (the property's "
          "alphabet); '+1', '1_0', non-ASCII digits/blanks are outside the model. The grammar's open points (what an id is, first "
          "character in @/>0-9A-Z, no leading '.') follow the code and are listed in Spec/PathGrammar.lean. Theorems are stated over "
-         'List Char. The model is the parser after fix F2 (ee91e13).',
+         'List Char. The model is the parser after fix F2 (ee91e13). The source tie models int() in full (Py.intOfStr) and '
+         'assumes CPython >= 3.11 with the default int_max_str_digits = 4300, Unicode 15.0.0 tables (compared with the interpreter '
+         'on every run), assertions enabled, and the declared attribute types of NodePathParser / NodePath (notes/Tie.md).',
 )
 
 
